@@ -338,7 +338,8 @@ pub fn run(a: &Args) -> Report {
                 }
                 rep.count("bytes_compared", ref_bytes.len() as u64);
                 // other entry points of the codec must agree with the layout too
-                if r.encoded_size() != ref_bytes.len() || r.size_hint() > 16 * ref_bytes.len() + 64 {
+                // (size_hint() is only a hint: nothing is asserted about it)
+                if r.encoded_size() != ref_bytes.len() {
                     rep.violation("C06/encoded-size", format!("encoded_size() = {}, layout has {} bytes", r.encoded_size(), ref_bytes.len()), case());
                 }
                 let via = r.using_encoded(|b| b.to_vec());
